@@ -54,6 +54,15 @@ def enumerate_skeletons(max_scopes, max_values):
                                 yield (parents, kinds, (v, w))
 
 
+def enumerate_deep(n=5):
+    """Deeper family: n scopes, ONE body-independent value created in the main program and used in exactly two scopes."""
+    scopes = list(range(n))
+    for parents in tree_shapes(n):
+        for kinds in itertools.product("IL", repeat=n - 1):
+            for u in itertools.combinations(scopes, 2):
+                yield (parents, ("R",) + kinds, ((0, False, u),))
+
+
 def descendants(parents, s):
     out = {s}
     for i in range(len(parents) + 1):
@@ -199,6 +208,10 @@ def run(run: Run) -> int:
     sks = list(enumerate_skeletons(3 if quick else 4, 1 if quick else 2))
     if not quick and len(sks) > 30000:
         sks = sks[:: len(sks) // 30000 + 1]
+    deep = list(enumerate_deep(5))
+    step = max(1, len(deep) // (400 if quick else 4000))
+    off = run.rng.randrange(step)
+    sks = sks + deep[off::step]
     cases = []
     for sk in sks:
         try:
@@ -239,7 +252,8 @@ def run(run: Run) -> int:
     cov = {
         "evaluations": len(cases), "distinct_nontrivial": len(distinct),
         "rule": f"exhaustive skeleton family (scope trees with <= {3 if quick else 4} scopes of kind If-branch/Loop-body, "
-                f"{1 if quick else 2} movable value(s): every creation scope x body-dependence x non-empty use-scope set) "
+                f"{1 if quick else 2} movable value(s): every creation scope x body-dependence x non-empty use-scope set), a sampled family of "
+                f"5-scope trees with one value used in two scopes ({len(deep[off::step])} of {len(deep)}) "
                 "plus random programs with leak probability 0.5; distinct by rendering",
         "exhaustive": True, "exhaustive_family_size": n_skel,
         "traces_validated_against_impl": len([c for c in cases if c.coq is not None]) - len(mism),
